@@ -26,7 +26,13 @@ def condition_branches(ctx: Ctx, pid: str):
     nonblocking = ("p", fn.fi.qualname, "kw:nonblocking", "nonblocking")
     priority = ("p", fn.fi.qualname, "kw:priority", "priority")
     cond = ("p", "branch", 0, "cond")
-    last = ("n", "last")
+    # the "a catch-all branch was added" flag: the one name the nested `branch` function declares nonlocal
+    import ast as _ast
+
+    nl = [n for st in _ast.walk(fn.fi.node) if isinstance(st, _ast.Nonlocal) for n in st.names]
+    if len(set(nl)) != 1:
+        raise AnalysisError(rule, fn.site, f"condition(): expected one nonlocal flag in branch(), found {sorted(set(nl))}")
+    last = ("n", nl[0])
     n_branch_cfg = 0
     saw_default = saw_cond = False
     for ex in fn.exs:
